@@ -53,7 +53,7 @@ Proof.
                     = length (control_line st) + length s)
           by (rewrite skipn_length, app_length; lia).
         destruct (firstn p (control_line st ++ s)).
-        -- right. unfold M; rsimpl. rewrite Hv. simpl. lia.
+        -- try (right; unfold M; rsimpl; rewrite Hv; simpl; lia); exact I.
         -- destruct (control_line_verdict _); auto.
            destruct (0 <? sz)%N; right; unfold M; rsimpl; rewrite Hv; simpl; lia.
       * destruct (startswith (trailer st ++ s) CRLF); auto.
@@ -198,7 +198,8 @@ Proof.
              by (rewrite skipn_length, app_length; lia).
            destruct (firstn p (control_line st ++ s)) eqn:Hline.
            ++ split; [split; rsimpl; auto; intros; congruence|].
-              split; [left; lia|]. unfold phi; rsimpl. simpl. split; [lia | auto].
+              first [ split; [left; lia|]; unfold phi; rsimpl; simpl; split; [lia | auto]
+                    | unfold phi; rsimpl; simpl; split; [lia | auto] ].
            ++ destruct (control_line_verdict _).
               ** destruct (0 <? sz)%N eqn:Hsz.
                  --- split; [split; rsimpl; auto; intros; congruence|].
@@ -289,4 +290,47 @@ Proof.
   destruct (f_remain f <=? lenN data)%N eqn:E2.
   - apply N.leb_le in E2. unfold lenN in *. cbn [f_completed f_remain]. split; [lia | auto].
   - apply N.leb_gt in E2. unfold lenN in *. cbn [f_completed f_remain]. split; [lia|]. right. repeat split; lia.
+Qed.
+
+(* the only errors the chunked receiver raises *)
+Definition chunk_err (e : option perr) : Prop :=
+  match e with
+  | None | Some EChunkNotTerminated | Some EInvalidChunkExt | Some EInvalidChunkSize => True
+  | _ => False
+  end.
+
+Lemma iter_err st s o : chunk_err (c_error st) ->
+  match chunked_iter st s o with
+  | Continue st' _ | Break st' | Return st' _ => chunk_err (c_error st')
+  end.
+Proof.
+  intros H. unfold chunked_iter.
+  repeat match goal with
+  | |- context [match ?c with _ => _ end] =>
+    lazymatch c with
+    | context [match _ with _ => _ end] => fail
+    | _ => destruct c
+    end
+  end; rsimpl; auto; exact I.
+Qed.
+
+Lemma loop_err f : forall st s o st' n, chunk_err (c_error st) ->
+  chunked_loop f st s o = Some (st', n) -> chunk_err (c_error st').
+Proof.
+  induction f as [|f IH]; intros st s o st' n H E.
+  - destruct s; simpl in E; [injection E as <- <-; auto | discriminate].
+  - destruct s as [|x s]; [simpl in E; injection E as <- <-; auto|].
+    cbn [chunked_loop] in E. pose proof (iter_err st (x :: s) o H) as I.
+    destruct (chunked_iter st (x :: s) o).
+    + eapply IH; eauto.
+    + injection E as <- <-. auto.
+    + injection E as <- <-. auto.
+Qed.
+
+Lemma chunked_received_err st s st' n : chunk_err (c_error st) ->
+  chunked_received st s = Some (st', n) -> chunk_err (c_error st').
+Proof.
+  intros H. unfold chunked_received. destruct (c_completed st).
+  - intros E; injection E as <- <-. auto.
+  - apply loop_err; auto.
 Qed.
